@@ -84,7 +84,7 @@ def rebalance_algo(chk, pid):
             u = b.get("update")
             chk.ob("C06.R3", u is not None and canon(u) == canon(sym.FALSE), ALGOS, host, "rebalance-deferred", "updates are deferred while the children are rebalanced against the captured base",
                    where=e.where, expected="update=False", found=short(u) if u else "default")
-    if pid == "C17":
+    if pid in ("C17", "C06"):
         # close loop in a fixed-income strategy: the tested quantity is the child's notional value
         for e in cl:
             g = G(e)
